@@ -1,7 +1,38 @@
 # Table of claimed checks (read by gen_manifest.py).
-TV = "TLA+ specification + TLC: trace validation of recorded executions against the specification's operators"
+TV = "TLA+ specification checked by TLC; trace validation of executions recorded from the library against the specification (Trace.tla)"
+HP = "; 40-digit real arithmetic inside TLC (module override HPReal)"
+GR = "; relational formula over groups of sibling calls, sibling-hood decided by the specification"
 
 check("C01", "Every recorded rate() call is accepted by the trace specification only if each returned (mu, sigma) lies within a "
-      "first-order double-precision budget of the 40-digit TLA+ transcription of the model's published update rule; the "
-      "continuous domain is sampled (boundary-biased), the discrete structure (ties, shapes, encodings, options) is covered by class counting.",
-      TV + "; 40-digit real arithmetic in TLC via module override")
+      "first-order double-precision budget of the 40-digit TLA+ transcription of the model's published update rule. The "
+      "continuous domain is sampled (boundary-biased); the discrete structure (ties, shapes, encodings, options, floor/clamp regimes) is class-counted and a missing class fails the run.",
+      TV + HP)
+check("C02", "Every recorded rate() result is checked slot by slot against the input projection: shape, id, name, class, the slot's own "
+      "posterior (a posterior that matches another slot is reported as moved), and the passed objects all-updated or all-untouched.", TV + HP)
+check("C03", "Each game is rated under 8 differently written outcome arguments that the specification (Outcome!SameOrder) proves "
+      "order-equivalent; TLC demands bit-identical results. Encodings include float/int mixes, bools, -0.0, 1e15 and 2^53 neighbours, scores, omitted ranks.", TV + GR)
+check("C04", "For each game all n! team orders (n <= 4 quick, 5 thorough; sampled above) with member permutations are rated; TLC verifies "
+      "that the sibling really is the permuted game and compares every player's posterior within twice the budget; partial pairing "
+      "only for permutations that keep tied teams in order.", TV + GR + HP)
+check("C05", "Single-game direction clauses on every recorded rate() call, plus groups: two-team games under win/draw/loss (ordering, prior "
+      "between, draw direction with the TM allowance) and place exchanges in games without ties.", TV + GR + HP)
+check("C06", "Sigma bounds evaluated by TLC on every recorded rate() call over tau/limit_sigma at model and call level, kappa and gamma configurations.", TV + HP)
+check("C07", "Precision-weighted zero sum of the observed mu changes evaluated by TLC per game with the budget of the posteriors and the TM tie allowance.", TV + HP)
+check("C08", "Random boundary-biased games on the whole numeric domain (up to 16 players per team, beta over six orders of magnitude): TLC "
+      "requires a normal return with finite numbers from the four operations.", TV)
+check("C09", "predict_win: distribution clauses per call; permuted presentations; mu increments from 1 ulp to 10 beta; exact one half for two identical teams.", TV + GR)
+check("C10", "predict_draw: range per call; order independence; two-team widening gaps; equalised totals.", TV + GR)
+check("C11", "predict_rank: rank/probability consistency on the returned floats incl. identical teams; rank + draw = 1 for n >= 3.", TV + GR)
+check("C12", "All three predictions within 1e-9 absolute of the 40-digit closed forms of Predict.tla.", TV + HP)
+check("C13", "A grammar of substituted values at every position of otherwise valid calls; the specification's WFRateCall/WFTeams (read from "
+      "the property's sentence) classifies each call; TLC requires TypeError/ValueError, no modified rating or model attribute on "
+      "rejection, and acceptance of every well-formed in-domain call.", TV)
+check("C14", "Model attributes projected before/after every call; the same call after different histories on a shared model, with other ids, "
+      "names and objects, must be bit-identical.", TV + GR)
+check("C15", "Model-level against per-call tau / limit_sigma (each alone, both, explicit None), t including 0 and 0.0: TLC verifies the effective options coincide and demands bit-identical results.", TV + GR)
+check("C16", "Rescaled (incl. powers of two) and shifted games: TLC verifies the sibling is the scaled/shifted game and compares rate (PL, BT) within twice the budget and all predictions within 1e-12.", TV + GR + HP)
+check("C18", "Comparisons, ordinal and sorted() on pairs with many equal ordinals and random floats, foreign operands of every kind, judged by Rel.tla.", TV)
+check("C19", "The same call on all five classes (TLC verifies the calls correspond): identical predictions, acceptance and exception class, "
+      "BT part = BT full on two teams, identical operation tables/signatures and hashes.", TV + GR)
+check("C20", "Constructors, deepcopy and twin leagues (live objects vs players rebuilt from stored (mu, sigma) before every game) judged by Rel.tla; bit-identical results.", TV + GR)
+NOT_YET["C17"] = "kernel sweep against Kernels.tla not built yet in this round (planned: DESIGN 6/C17)"
